@@ -33,7 +33,7 @@ MARGIN = 1e-9
 STATS = ("mean", "median", "max", "range", "std", "var")      # std / var: NumPy callables with ddof=0 (the user's statistic, not pandas' ddof=1)
 INEXACT_STATS = ("std", "var")
 BOUNDS = ((-1.0, 1.0), (0.0, 0.0), (-2.5, 0.5), (0.5, 3.0))
-REPRS = ("df", "df:x", "df:labels", "series", "series:labels", "ndarray1d", "ndarray2d", "df:int64", "df:datetime", "df:range5")
+REPRS = ("df", "df:x", "df:labels", "series", "series:labels", "ndarray1d", "ndarray2d", "df:int64", "df:datetime", "df:range5", "df:ties", "df:datetime-ties")
 
 
 def _user_range(v):
@@ -117,6 +117,11 @@ def represent(x, kind):
         return pd.DataFrame(x, index=pd.date_range("2021-03-01", periods=n, freq="D"))
     if kind == "df:range5":
         return pd.DataFrame(x, index=pd.RangeIndex(5, 5 + n))
+    if kind == "df:ties":           # sorted integer labels with repeated values (two samples per label): segments are positional
+        return pd.DataFrame(x, index=pd.Index([i // 2 for i in range(n)], dtype="int64"))
+    if kind == "df:datetime-ties":
+        base = pd.date_range("2021-03-01", periods=n // 2 + 1, freq="D")
+        return pd.DataFrame(x, index=pd.DatetimeIndex([base[i // 2] for i in range(n)]))
     raise ValueError(kind)
 
 
